@@ -58,6 +58,13 @@ def run_engine(ctx, prefixes, n_quick=250, n_thorough=4000, mode="engine", extra
                 d = dis[0]
                 ctx.broken.append({"kind": "correspondence", "name": "M-ENGINE vs real LockDB (corpus replay)",
                                    "detail": f"{len(dis)} corpus lines disagree; first: {first_divergence(d[2], d[3])} ops={d[1][:1500]}"})
+    # inputs outside the modelled subset (excluded flags): replayed for the crash monitor only, never diffed
+    nomodel = os.path.join(vlib.VERIF, "corpus", "engine_nomodel.ops")
+    if os.path.exists(nomodel) and mode == "engine" and "C13:" in prefixes:
+        outdir = ctx.run_harness(exe, "engine-replay", 1, seed="nomodel", extra={"VERIF_REPLAY": nomodel, "VERIF_FASTPARK": "1"})
+        if outdir:
+            read_monitor(ctx, outdir, "engine-replay", ["C13:"])
+            ctx.cov["nomodel_corpus_lines_replayed"] = sum(1 for l in open(nomodel) if l.startswith("engine "))
     n = n_quick if ctx.tier == "quick" else n_thorough
     seeds = [ctx.seed] if ctx.tier == "quick" else [ctx.seed + i for i in range(4)]
     for sd in seeds:
